@@ -62,8 +62,8 @@ PROPS = {
             "graph and the default graph stays known (proved)",
             "ConjunctiveGraph.triples / __contains__: a read restricted to graph g (by quad or context=, name or Graph "
             "object - including an EMPTY graph object, which is falsy in Python) returns exactly G(g); without a graph "
-            "the union or the default graph according to default_union (proved: soundness, no duplicates; completeness "
-            "proved for the shapes the solvers finish within budget)",
+            "the union or the default graph according to default_union (proved: soundness, no duplicates, completeness "
+            "for every argument shape)",
             "ConjunctiveGraph.quads / Dataset.quads / Dataset.graphs: soundness and duplicate-freedom on graph names (proved)",
             "the store-level clauses (triple shared by several graphs, default-context compression) are the Memory "
             "representation-invariant obligations of C01",
@@ -85,7 +85,7 @@ PROPS = {
                       "stored-context-object model of Store.contexts, PyVC/z3/cvc5.",
     },
     "C04": {
-        "modules": ["contracts.c04_primitives", "contracts.c04_expr"],
+        "modules": ["contracts.c04_primitives", "contracts.c04_expr", "contracts.c04_eval"],
         "claim_level": "other",
         "design_ref": "6.4",
         "technique": TECH,
@@ -100,6 +100,10 @@ PROPS = {
             "collection, EBV external with three outcomes)",
             "FrozenBindings.forget(before, except): keeps exactly the bindings whose variable was unbound before (is None "
             "- a falsy term is a binding), or is in initBindings, or is excepted (proved for an arbitrary variable)",
+            "evalFilter keeps exactly the operand's solutions whose EBV under the filter's scope (forget, unless "
+            "no_isolated_scope) is true, an error counting as false; evalExtend (BIND) extends each solution by var := value "
+            "or passes it through unchanged when the expression is an error - no solution is dropped (proved: soundness "
+            "per yield and completeness)",
             "QueryContext.__setitem__: raises AlreadyBound iff the variable is bound to a different term (falsy terms "
             "included), otherwise records the binding; state unchanged when it raises (proved)",
         ],
